@@ -105,8 +105,8 @@ theorem addNext_spec (a0 : AtomsS) (c0 : Ctx) (hfx : FixedOK a0) (r : Nat) (s : 
   rw [hadd] at hsp
   obtain ⟨_, hc, halt⟩ := hsp
   dsimp only at hc halt ⊢
-  have hcore1 : ctxCore { s1.ctx with addedIdx := [], addedAtoms := [], delta := 0 } =
-      ctxCore { c0 with addedIdx := [], addedAtoms := [], delta := 0 } := by
+  have hcore1 : ctxCore { s1.ctx with addedIdx := [], addedAtoms := [], addedSizes := [], delta := 0 } =
+      ctxCore { c0 with addedIdx := [], addedAtoms := [], addedSizes := [], delta := 0 } := by
     rw [← h.core]
     simp only [ctxCore] at hc ⊢
     cases hs1 : s1.ctx; cases hs : s.ctx
@@ -117,11 +117,13 @@ theorem addNext_spec (a0 : AtomsS) (c0 : Ctx) (hfx : FixedOK a0) (r : Nat) (s : 
     have := congrArg Ctx.addedIdx hc; simpa [ctxCore] using this
   have hdelta1 : s1.ctx.delta = s.ctx.delta := by
     have := congrArg Ctx.delta hc; simpa [ctxCore] using this
+  have hsizes1 : s1.ctx.addedSizes = s.ctx.addedSizes := by
+    have := congrArg Ctx.addedSizes hc; simpa [ctxCore] using this
   rcases halt with ⟨hidx, hat⟩ | ⟨hidx, d, hd⟩
   · -- vetoed
     left
     simp only [hidx, List.isEmpty_nil, if_true, Bool.not_true, true_and]
-    refine ⟨⟨?_, ?_, ?_, ?_, ?_, ?_⟩, ?_⟩
+    refine ⟨⟨?_, ?_, ?_, ?_, ?_, ?_, fun hk => by show s1.ctx.addedSizes = _; rw [hsizes1]; exact h.sizes0 hk⟩, ?_⟩
     · show s1.atoms.cell = a0.cell; rw [hat]; exact h.cell
     · show s1.atoms.fixed = a0.fixed; rw [hat]; exact h.fixed
     · show s1.atoms.rows.take a0.rows.length = a0.rows; rw [hat]; exact h.take
@@ -139,7 +141,8 @@ theorem addNext_spec (a0 : AtomsS) (c0 : Ctx) (hfx : FixedOK a0) (r : Nat) (s : 
       exact hnew this
     have hie' : idx.isEmpty = false := by cases idx <;> simp_all
     simp only [hie', Bool.false_eq_true, if_false, Bool.not_false, true_and]
-    refine ⟨⟨?_, ?_, ?_, ?_, ?_, ?_⟩, ?_⟩
+    have hpos : 0 < new.length := List.length_pos_iff.mpr hnew
+    refine ⟨⟨?_, ?_, ?_, ?_, ?_, ?_, fun hk => by omega⟩, ?_⟩
     · show s1.atoms.cell = a0.cell; rw [hd]; exact h.cell
     · show s1.atoms.fixed = a0.fixed; rw [hd]; exact h.fixed
     · show s1.atoms.rows.take a0.rows.length = a0.rows
@@ -160,7 +163,7 @@ theorem addNext_spec (a0 : AtomsS) (c0 : Ctx) (hfx : FixedOK a0) (r : Nat) (s : 
     · show (recordAdded s1.ctx idx s1.atoms.rows).addedIdx = _
       simp only [recordAdded, hadded1, h.added, hidx, addMoving, h.len]
       exact range_shift K new.length a0.rows.length
-    · show ctxCore { (recordAdded s1.ctx idx s1.atoms.rows) with addedIdx := [], addedAtoms := [], delta := 0 } = _
+    · show ctxCore { (recordAdded s1.ctx idx s1.atoms.rows) with addedIdx := [], addedAtoms := [], addedSizes := [], delta := 0 } = _
       rw [← hcore1]
       simp [recordAdded, ctxCore]
     · show (recordAdded s1.ctx idx s1.atoms.rows).delta = s.ctx.delta + 1
@@ -442,6 +445,89 @@ theorem notify_kind (refs added removed : List Nat) (heap : List MoveObj) (r : N
   (notifyRefs_shape refs added removed heap).2 r
 
 
+/-- the same for the per-particle notifications -/
+theorem notifyParts_kind (refs sizes added removed : List Nat) (heap : List MoveObj) (r : Nat) :
+    ((notifyParts refs sizes added removed heap).getD r { kind := .user }).kind = (heap.getD r { kind := .user }).kind :=
+  (notifyParts_shape refs sizes added removed heap).2 r
+
+theorem notifyParts_aligned (refs sizes added removed : List Nat) (heap : List MoveObj) (n : Nat) (hnd : refs.Nodup)
+    (hn : removed.Nodup) (hv : ∀ i ∈ removed, i < n + added.length) (r : Nat) (hr : r ∈ refs)
+    (hlt : r < heap.length) (hlb : labelBearing (heap.getD r { kind := .user }).kind = true)
+    (hlen : (heap.getD r { kind := .user }).labels.length = n) :
+    ((notifyParts refs sizes added removed heap).getD r { kind := .user }).labels.length + removed.length =
+      n + added.length := by
+  induction sizes generalizing added heap n with
+  | nil => exact notify_aligned refs added removed heap n hnd hn hv r hr hlt hlb hlen
+  | cons k ks ih =>
+    cases ks with
+    | nil => exact notify_aligned refs added removed heap n hnd hn hv r hr hlt hlb hlen
+    | cons m ms =>
+      simp only [notifyParts]
+      have h1 := notify_aligned refs (added.take k) [] heap n hnd List.nodup_nil (by simp) r hr hlt hlb hlen
+      simp only [List.length_nil, Nat.add_zero] at h1
+      have hsplit : (added.take k).length + (added.drop k).length = added.length := by
+        rw [← List.length_append, List.take_append_drop]
+      have hlt' : r < (notifyRefs refs (added.take k) [] heap).length := by
+        rw [(notifyRefs_shape _ _ _ _).1]; exact hlt
+      have hlb' : labelBearing ((notifyRefs refs (added.take k) [] heap).getD r { kind := .user }).kind = true := by
+        rw [notify_kind]; exact hlb
+      have := ih (added.drop k) (notifyRefs refs (added.take k) [] heap) (n + (added.take k).length)
+        (by intro i hi; have := hv i hi; omega) hlt' hlb' h1
+      omega
+
+/-- the per-particle notifications, seen from one label-bearing object -/
+def onPartsObj (m : MoveObj) : List Nat → List Nat → List Nat → MoveObj
+  | [], added, removed => onAtomsChangedObj m added removed
+  | [_], added, removed => onAtomsChangedObj m added removed
+  | n :: k :: ks, added, removed => onPartsObj (onAtomsChangedObj m (added.take n) []) (k :: ks) (added.drop n) removed
+
+theorem onPartsObj_static (m : MoveObj) (sizes added removed : List Nat) :
+    (onPartsObj m sizes added removed).kind = m.kind ∧ (onPartsObj m sizes added removed).defaultLabel = m.defaultLabel := by
+  induction sizes generalizing m added with
+  | nil => exact ⟨(onAtomsChanged_static m added removed).1, (onAtomsChanged_static m added removed).2⟩
+  | cons n ns ih =>
+    cases ns with
+    | nil => exact ⟨(onAtomsChanged_static m added removed).1, (onAtomsChanged_static m added removed).2⟩
+    | cons k ks =>
+      simp only [onPartsObj]
+      obtain ⟨a, b⟩ := ih (onAtomsChangedObj m (added.take n) []) (added.drop n)
+      exact ⟨a.trans (onAtomsChanged_static m _ _).1, b.trans (onAtomsChanged_static m _ _).2⟩
+
+theorem onPartsObj_labels_congr (m m' : MoveObj) (sizes a r : List Nat) (hl : m'.labels = m.labels)
+    (hd : m'.defaultLabel = m.defaultLabel) :
+    (onPartsObj m' sizes a r).labels = (onPartsObj m sizes a r).labels := by
+  induction sizes generalizing m m' a with
+  | nil => simp [onPartsObj, onAtomsChangedObj, hl, hd]
+  | cons n ns ih =>
+    cases ns with
+    | nil => simp [onPartsObj, onAtomsChangedObj, hl, hd]
+    | cons k ks =>
+      simp only [onPartsObj]
+      apply ih
+      · simp [onAtomsChangedObj, hl, hd]
+      · rw [(onAtomsChanged_static m' _ _).2, (onAtomsChanged_static m _ _).2, hd]
+
+theorem onPartsObj_nil (m : MoveObj) : onPartsObj m [] [] [] = m := by
+  simp [onPartsObj, onAtomsChangedObj]
+
+/-- what the per-particle notifications do to object `r` -/
+theorem notifyParts_spec (rs sizes added removed : List Nat) (h : List MoveObj) (hn : rs.Nodup) (r : Nat) :
+    (notifyParts rs sizes added removed h).getD r { kind := .user } =
+      if r ∈ rs ∧ r < h.length ∧ labelBearing (h.getD r { kind := .user }).kind = true
+      then onPartsObj (h.getD r { kind := .user }) sizes added removed
+      else h.getD r { kind := .user } := by
+  induction sizes generalizing added h with
+  | nil => exact notifyRefs_spec rs added removed h hn r
+  | cons n ns ih =>
+    cases ns with
+    | nil => exact notifyRefs_spec rs added removed h hn r
+    | cons k ks =>
+      simp only [notifyParts, onPartsObj]
+      rw [ih, (notifyRefs_shape _ _ _ _).1, notify_kind, notifyRefs_spec rs (added.take n) [] h hn r]
+      by_cases hc : r ∈ rs ∧ r < h.length ∧ labelBearing (h.getD r { kind := .user }).kind = true
+      · simp only [hc, and_self, if_true]
+      · simp only [hc, if_false]
+
 /-! ### the composite call, from a clean context -/
 
 /-- members of the composite insertion drawn in `s` whose insertion succeeded -/
@@ -463,7 +549,7 @@ theorem compExch_insertion_call (rs : List Nat) (b : Nat) (s : State) (hinv : In
       (∀ k, s.ctx.template.length = k → (∀ r ∈ rs, (toAddOf (s.obj r) s.ctx).length = k) →
         K' = k * compExchInserted rs s) := by
   have h0 : AddInv s.atoms s.ctx ({ s with inp := s.inp.draw.2 } : State) 0 := by
-    refine ⟨rfl, rfl, ?_, by simp, ?_, rfl⟩
+    refine ⟨rfl, rfl, ?_, by simp, ?_, rfl, fun _ => rfl⟩
     · simp
     · simpa using hinv.noAdded
   have hcall : callTree (.compExch rs b) s = compExchAddLoop rs false { s with inp := s.inp.draw.2 } := by
